@@ -283,6 +283,50 @@ static void cbloom_write(void) { /* cbloom-write EST RATE ADDED {KEY COUNT}... (
     free(cells);
 }
 
+static void cbloom_ops(void) { /* cbloom-ops EST RATE {+|-}KEY:N ... : replay a history with the documented saturation rules */
+    uint64_t est = strtoull(tok[1], NULL, 10);
+    float fpr = (float)strtod(tok[2], NULL);
+    uint64_t m, k; int half;
+    geometry(est, fpr, &m, &k, &half);
+    uint32_t *cells = calloc(m ? m : 1, 4);
+    uint64_t total = 0;
+    for (int i = 3; i < ntok; i++) {
+        char sign = tok[i][0];
+        char *colon = strchr(tok[i], ':');
+        *colon = 0;
+        buf_t key = unhex(tok[i] + 1);
+        /* amounts may exceed 64 bits in the driver's alphabet: anything longer than 19 digits saturates */
+        uint64_t n = strlen(colon + 1) > 19 ? UINT64_MAX : strtoull(colon + 1, NULL, 10);
+        if (sign == '+') {
+            for (uint64_t j = 0; j < k; j++) { /* once per occurrence of a position, pinned at 2^32-1 */
+                uint64_t pos = fnv64(key.p, key.n, j) % m;
+                uint64_t v = (uint64_t)cells[pos] + (n > UINT32_MAX ? (uint64_t)UINT32_MAX : n);
+                cells[pos] = v > UINT32_MAX ? UINT32_MAX : (uint32_t)v;
+            }
+            total = (total + n < total) ? UINT64_MAX : total + n;
+        } else {
+            uint32_t lo = UINT32_MAX;
+            for (uint64_t j = 0; j < k; j++) { uint32_t c = cells[fnv64(key.p, key.n, j) % m]; if (c < lo) lo = c; }
+            if (lo != UINT32_MAX && lo != 0) { /* a key at the limit, or absent, is left alone */
+                uint32_t take = n < lo ? (uint32_t)n : lo;
+                for (uint64_t j = 0; j < k; j++) {
+                    uint64_t pos = fnv64(key.p, key.n, j) % m;
+                    if (cells[pos] < UINT32_MAX) cells[pos] -= take; /* a cell at the limit is never decremented */
+                }
+                total -= take;
+            }
+        }
+        free(key.p);
+    }
+    unsigned char foot[20];
+    put_bloom_footer(foot, est, total, fpr);
+    printf("%d ", half);
+    puthex((unsigned char *)cells, m * 4);
+    puthex(foot, 20);
+    printf("\n");
+    free(cells);
+}
+
 static void cms_write(void) { /* cms-write WIDTH DEPTH ADDED {KEY COUNT}... */
     uint32_t width = (uint32_t)strtoul(tok[1], NULL, 10), depth = (uint32_t)strtoul(tok[2], NULL, 10);
     int64_t added = strtoll(tok[3], NULL, 10);
@@ -376,6 +420,7 @@ int main(void) {
         else if (!strcmp(tok[0], "bloom-write")) bloom_write();
         else if (!strcmp(tok[0], "cbloom-write")) cbloom_write();
         else if (!strcmp(tok[0], "cms-write")) cms_write();
+        else if (!strcmp(tok[0], "cbloom-ops")) cbloom_ops();
         else if (!strcmp(tok[0], "expanding-write")) expanding_write();
         else if (!strcmp(tok[0], "cuckoo-write")) cuckoo_write();
         else if (!strcmp(tok[0], "fnv")) fnv_cmd();
